@@ -326,6 +326,57 @@ class Gen:
     self.run.count("gen_merge_%s_%d" % (cls, n))
     return K.Model(ins, x), n
 
+  def m_multi_out(self):
+    """shared trunk, 2-3 output heads of different classes (the output layers are NOT the last layers
+    processed one after the other only: Keras lists all heads at the end, so a later head follows an
+    earlier OUTPUT layer in energy_estimate's loop); sometimes an intermediate tensor is an output too"""
+    K, Q = self.K, self.Q
+    shape = (self.ri(4, 8), self.ri(4, 8), self.ri(1, 4))
+    x_in, x = self.head(shape)
+    x = self.conv2d(x)
+    trunk = self.act(x)
+    heads = []
+    n_heads = self.ch([2, 2, 3])
+    for _ in range(n_heads):
+      kind = self.ch(["dense", "dense", "conv", "act", "pool_dense"])
+      y = trunk
+      if kind == "dense":
+        y = K.layers.Flatten()(y)
+        y = Q.QDense(self.ri(1, 6), kernel_quantizer=self.kq(), bias_quantizer="quantized_bits(4,0,1)",
+                     use_bias=self.p(0.7))(y)
+      elif kind == "conv":
+        y = self.conv2d(y, force={"padding": "same"})
+      elif kind == "act":
+        y = self.act(y)
+      else:
+        y = K.layers.GlobalAveragePooling2D()(y)
+        y = Q.QDense(self.ri(1, 4), kernel_quantizer=self.kq(), bias_quantizer="quantized_bits(4,0,1)")(y)
+      if self.p(0.3):
+        y = self.act(y)
+      heads.append(y)
+    if self.p(0.25):
+      heads.insert(0, trunk)      # an inner tensor that is ALSO a model output
+    self.run.count("gen_multi_out_%d" % len(heads))
+    return K.Model(x_in, heads), 1
+
+  def m_multi_in(self):
+    """two model inputs, each with its own first layer (two INPUT layers), merged, then a head"""
+    K, Q = self.K, self.Q
+    shape = (self.ri(3, 6), self.ri(3, 6), self.ri(1, 4))
+    ins = [K.layers.Input(shape) for _ in range(2)]
+    bs = []
+    c = self.ri(1, 4)
+    for t in ins:
+      if self.p(0.5):
+        t = self.act(t)
+      t = Q.QConv2D(c, 1, kernel_quantizer=self.kq(), bias_quantizer="quantized_bits(4,0,1)")(t)
+      bs.append(self.act(t))
+    x = K.layers.Add()(bs)
+    x = K.layers.Flatten()(x)
+    x = Q.QDense(self.ri(1, 4), kernel_quantizer=self.kq(), bias_quantizer="quantized_bits(4,0,1)")(x)
+    self.run.count("gen_multi_in")
+    return K.Model(ins, x), 2
+
   def m_grouped(self):
     K = self.K
     g = self.ch([2, 2, 3, 4])
@@ -718,6 +769,94 @@ def extract_settings(g2, classes, live):
   return out
 
 
+# ----------------------------------------------------------------------------- documented energy entries
+
+def doc_memory_energy(cfg, mul_factor, elems, bits, mode, min_sram, rd_wr_on_io, io_layer):
+  """the documented energy of moving one tensor (qenergy docstrings, theorems C19_entry_memory_read /
+  _memory_write / _parameters_*): a tensor of an io layer lives in DRAM iff rd_wr_on_io, whatever the
+  configured placement; DRAM access = dram polynomial (+ one SRAM access when rd_wr_on_io stages it);
+  SRAM access = ceil(bits * mul_factor) * sram polynomial(log2 max(bits, min_sram)); fixed = free; every
+  polynomial clamped at 0.  Written here from that description, evaluated in float64 on the live cfg."""
+  if io_layer:
+    mode = "dram" if rd_wr_on_io else "sram"
+  tb = elems * bits
+  with np.errstate(all="ignore"):
+    sram = float(np.ceil(tb * mul_factor) * max(cfg.sram_rd(np.log2(max(tb, min_sram))), 0))
+    dram = float(max(cfg.dram_rd(tb), 0))
+  if mode == "dram":
+    return dram + (sram if rd_wr_on_io else 0.0)
+  if mode == "sram":
+    return sram
+  return 0.0
+
+
+def keras_io_layers(model):
+  """input / output layers read off the Keras graph (not from QTools' layer map): a layer fed by a model
+  input; a layer none of whose outputs is consumed inside the model (qtools' convention: the sinks of the
+  layer graph — a tensor that is consumed AND listed in model.outputs does not make its layer an output
+  layer; that convention belongs to the graph builder, C19 takes it as given)"""
+  ins, outs = set(), set()
+  in_ids = {id(t) for t in model.inputs}
+  consumed = set()
+  for layer in model.layers:
+    if layer.__class__.__name__ == "InputLayer":
+      continue
+    li = layer.input if isinstance(layer.input, list) else [layer.input]
+    for t in li:
+      consumed.add(id(t))
+    if any(id(t) in in_ids for t in li):
+      ins.add(layer.name)
+  for layer in model.layers:
+    if layer.__class__.__name__ == "InputLayer":
+      continue
+    lo = layer.output if isinstance(layer.output, list) else [layer.output]
+    if not any(id(t) in consumed for t in lo):
+      outs.add(layer.name)
+  return ins, outs
+
+
+def doc_entries(cfg, mul_factor, model, out_dict, io, opts):
+  """{layer: {"inputs"|"outputs"|"parameters": documented value}} from the REPORTED data of
+  QTools._output_dict (types, tensor shapes) and the options of ONE pe() call"""
+  wm, am, ms, rdwr = opts
+  ins, outs = io
+  res = {}
+  for layer in model.layers:
+    d = out_dict.get(layer.name)
+    if not isinstance(d, dict) or "output_quantizer" not in d:
+      continue
+    ish = layer.input_shape if isinstance(layer.input_shape, list) else [layer.input_shape]
+    e = {}
+    try:
+      e["inputs"] = sum(doc_memory_energy(cfg, mul_factor, _prod(list(sh)[1:]), q["bits"], am, ms, rdwr,
+                                          layer.name in ins)
+                        for sh, q in zip(ish, d["input_quantizer_list"]))
+      oq = d["output_quantizer"]
+      e["outputs"] = doc_memory_energy(cfg, mul_factor, _prod(list(oq["shape"])[1:]), oq["bits"], am, ms, rdwr,
+                                       layer.name in outs)
+      cls = layer.__class__.__name__
+      if cls not in ("BatchNormalization", "QBatchNormalization"):
+        par = 0.0
+        wq = d.get("weight_quantizer")
+        if wq is not None and wq.get("shape") is not None:
+          shp = wq["shape"]
+          par += doc_memory_energy(cfg, mul_factor, _prod(shp) if isinstance(shp, (list, tuple)) else int(shp),
+                                   wq["bits"], wm, ms, rdwr, False)
+          bq = d.get("bias_quantizer")
+          if bq:
+            shp = bq["shape"]
+            par += doc_memory_energy(cfg, mul_factor, _prod(shp) if isinstance(shp, (list, tuple)) else int(shp),
+                                     bq["bits"], wm, ms, rdwr, False)
+        e["parameters"] = par
+    except (KeyError, TypeError):
+      continue
+    res[layer.name] = e
+  return res
+
+
+LATTICE = [(w, a, io) for w in ("dram", "sram", "fixed") for a in ("dram", "sram") for io in (True, False)]
+
+
 # ----------------------------------------------------------------------------- the check
 
 def run(run: core.Run, tier: str):
@@ -734,6 +873,7 @@ def run(run: core.Run, tier: str):
   gv = qtools_util.get_val
   gen = Gen(rng, run, K, Q)
   g2 = Gen(np.random.default_rng([int(run.seed), 1904]), run, K, Q)   # cost settings: own stream
+  g3 = Gen(np.random.default_rng([int(run.seed), 1905]), run, K, Q)   # pe() histories: own stream
   n_models = 150 if tier == "quick" else 900
   run.extra["rule"] = (
       "random Keras/QKeras models (legacy tf_keras): Conv2D/QConv2D, Conv1D/QConv1D, (Q)DepthwiseConv2D, "
@@ -748,7 +888,11 @@ def run(run: core.Run, tier: str):
       "'default' empty / partial / full / missing, the live include_energy with one class of the model or "
       "the default emptied, every class of the model emptied, {} , keys of classes absent from the model, "
       "near-miss class names (Q-less / Q-prefixed twin, prefix, lower case), two free mixes; "
-      "non-trivial = distinct (class, geometry) layer or distinct (model, placement)")
+      "multi-output (2-3 heads) and two-input models; HISTORIES on one QTools object: 16 pe() calls per model "
+      "(the 3 compared placements, the full 12-point placement lattice in a seeded order, the first call "
+      "again), every call judged entry by entry against the documented formula on _output_dict data; every "
+      "5th model against a fresh QTools twin; "
+      "non-trivial = distinct (class, geometry) layer or distinct (model, placement) or distinct later call")
   run.assumptions += [
       "Keras compute_output_shape / conv_output_length is trusted Keras code; its result is compared with "
       "the Lean convOutLen and with the shape of a real forward pass for every generated layer",
@@ -765,7 +909,8 @@ def run(run: core.Run, tier: str):
   builders = [("conv2d", gen.m_conv2d, 30), ("conv1d", gen.m_conv1d, 14), ("dense", gen.m_dense, 10),
               ("dense_se", gen.m_dense_se, 3), ("dense_lead", gen.m_dense_lead, 2), ("pool", gen.m_pool, 14),
               ("merge", gen.m_merge, 10), ("grouped", gen.m_grouped, 6), ("dw_mult", gen.m_dw_mult, 5),
-              ("sep", gen.m_sep, 6), ("qpool", gen.m_qpool, 5)]
+              ("sep", gen.m_sep, 6), ("qpool", gen.m_qpool, 5), ("multi_out", gen.m_multi_out, 12),
+              ("multi_in", gen.m_multi_in, 4)]
   weights = np.array([b[2] for b in builders], dtype=float)
   weights /= weights.sum()
 
@@ -935,6 +1080,98 @@ def run(run: core.Run, tier: str):
                     all(p_impl[n].get("energy") == ed[n]["energy"] for n in ed_layers))
         extract_meta.append((mname, sname, cs, ed, s_impl,
                              [p_impl[n]["total"] for n in ed_layers] if shape_ok else None))
+    # ---------------------------------------------------------- pe() histories on ONE QTools object
+    # every entry of every call is recomputed from the documented formula on the REPORTED data
+    # (`_output_dict`) and the options of THAT call: the k-th call must be what a first call would be.
+    if any(m[4] is not None for m in energy_meta[-len(placements):]):
+      io_layers = keras_io_layers(model)
+      mulf = qenergy.OP["sram"]["mul_factor"]
+      n_outputs = len(model.outputs)
+      history = [(plc, m[4]) for plc, m in zip(placements, energy_meta[-len(placements):])]
+      walk_ms = g3.ch([0, 0, 4096, 2 ** 20])
+      order = [LATTICE[int(i)] for i in g3.rng.permutation(len(LATTICE))]
+      walk = [(w, a, walk_ms, io) for (w, a, io) in order]
+      walk.append(placements[0])                      # the very first call again, at the end
+      for opts in walk:
+        try:
+          with _quiet(), np.errstate(all="ignore"):
+            edk = qt.pe(weights_on_memory=opts[0], activations_on_memory=opts[1], min_sram_size=opts[2],
+                        rd_wr_on_io=opts[3])
+        except Exception as e:  # pylint: disable=broad-except
+          edk = None
+          run.count("pe_history_raises_%s" % type(e).__name__)
+        history.append((opts, edk))
+      run.count("pe_history_calls", len(history))
+      for k, (opts, edk) in enumerate(history):
+        if edk is None:
+          continue
+        run.case(("pe_history", mname, k, opts), nontrivial=(k >= len(placements)))
+        doc = doc_entries(qsettings.cfg, mulf, model, qt._output_dict, io_layers, opts)
+        tot = F(0)
+        for lname, row in edk.items():
+          if lname == "total_cost":
+            continue
+          for kk in KEYS:
+            tot += F(row["energy"][kk])
+          if lname not in doc:
+            run.count("energy_documented_skipped_layer")
+            continue
+          role = ("input+output" if (lname in io_layers[0] and lname in io_layers[1]) else
+                  "input" if lname in io_layers[0] else "output" if lname in io_layers[1] else "inner")
+          for kk, dv in doc[lname].items():
+            rep = row["energy"][kk]
+            run.count("energy_documented_%s_%s" % (kk, role))
+            if not (abs(rep - dv) <= 0.01 + 1e-9 * abs(dv)):
+              run.violate("energy_entry_is_documented_function",
+                          {"stream": "energy_documented", "entry": kk, "layer_role": role,
+                           "call": "first" if k == 0 else "later",
+                           "model_outputs": "single" if n_outputs == 1 else "multi"},
+                          {"model": mname, "layers": [(l.name, l.__class__.__name__) for l in model.layers],
+                           "output_layers": sorted(io_layers[1]), "input_layers": sorted(io_layers[0]),
+                           "call_index": k, "options": {"weights_on_memory": opts[0], "activations_on_memory": opts[1],
+                                                        "min_sram_size": opts[2], "rd_wr_on_io": opts[3]},
+                           "earlier_calls_on_this_object": [list(h[0]) for h in history[:k]],
+                           "layer": lname, "class_name": row["class_name"], "entry": kk, "reported": rep,
+                           "documented": dv, "reported_types": qt._output_dict.get(lname),
+                           "replay": "qt = QTools(model, ...); pe(*earlier calls); qt.pe(**options)[layer]['energy'][entry]"},
+                          mirrored=False)
+        T = edk["total_cost"]
+        slack = F(2, 100) * (len(edk) - 1) + F(1, 10 ** 6) * max(1, abs(int(T)))
+        if not (tot - slack - 1 < T <= tot + slack):
+          run.violate("total_is_sum_of_entries", {"stream": "energy_documented", "clause_detail": "total_vs_rows"},
+                      {"model": mname, "call_index": k, "options": list(opts), "total_cost": T,
+                       "sum_of_reported_entries": float(tot)}, mirrored=False)
+      # the same options twice on one object, and (every 5th model) on a FRESH QTools object
+      first, last = history[0], history[-1]
+      if first[1] is not None and last[1] is not None and first[1] != last[1]:
+        diff = [(n, kk) for n in first[1] if n != "total_cost" for kk in KEYS
+                if first[1][n]["energy"][kk] != last[1].get(n, {}).get("energy", {}).get(kk)]
+        run.violate("pe_history_independent", {"stream": "energy_documented", "twin": "same_object_repeat"},
+                    {"model": mname, "options": list(first[0]), "calls_in_between": [list(h[0]) for h in history[1:-1]],
+                     "entries_that_changed": diff[:8], "first": first[1], "repeat": last[1]}, mirrored=False)
+      if mi % 5 == 0:
+        try:
+          with _quiet(), np.errstate(all="ignore"):
+            qt2 = run_qtools.QTools(model, process=process,
+                                    source_quantizers=[Q.quantizers.get_quantizer(s) for s in srcq],
+                                    is_inference=False, weights_path=None, keras_quantizer="fp32",
+                                    keras_accumulator="fp32", for_reference=for_reference)
+            k2 = len(history) - 2
+            o2 = history[k2][0]
+            ed2 = qt2.pe(weights_on_memory=o2[0], activations_on_memory=o2[1], min_sram_size=o2[2], rd_wr_on_io=o2[3])
+        except Exception as e:  # pylint: disable=broad-except
+          ed2 = None
+          run.count("pe_twin_raises_%s" % type(e).__name__)
+        if ed2 is not None and history[k2][1] is not None:
+          run.count("pe_fresh_twin_compared")
+          if ed2 != history[k2][1]:
+            diff = [(n, kk) for n in ed2 if n != "total_cost" for kk in KEYS
+                    if ed2[n]["energy"][kk] != history[k2][1].get(n, {}).get("energy", {}).get(kk)]
+            run.violate("pe_history_independent", {"stream": "energy_documented", "twin": "fresh_object"},
+                        {"model": mname, "call_index": k2, "options": list(o2),
+                         "earlier_calls_on_the_reused_object": [list(h[0]) for h in history[:k2]],
+                         "entries_that_differ": diff[:8], "reused_object": history[k2][1], "fresh_object": ed2},
+                        mirrored=False)
   if orig_polys is not None:
     for k, v in orig_polys.items():
       setattr(qsettings.cfg, k, v)
@@ -950,12 +1187,18 @@ def run(run: core.Run, tier: str):
     ms = gen.ch([0, 64, 4096, 2 ** 20])
     io = gen.p(0.5)
     rdwr = gen.p(0.5)
-    with np.errstate(all="ignore"):
-      r = float(qenergy.memory_read_energy(io, shape, mode, ms, rdwr, bits))
-      w = float(qenergy.memory_write_energy(io, shape, mode, ms, rdwr, bits))
-      eff = ("dram" if rdwr else "sram") if io else mode
-      r_eff = float(qenergy.memory_read_energy(False, shape, eff, ms, rdwr, bits))
-      r_flat = float(qenergy.memory_read_energy(False, (_prod(shape[1:]),), eff, ms, rdwr, bits, is_tensor=False))
+    eff = ("dram" if rdwr else "sram") if io else mode
+    try:
+      with np.errstate(all="ignore"):
+        r = float(qenergy.memory_read_energy(io, shape, mode, ms, rdwr, bits))
+        w = float(qenergy.memory_write_energy(io, shape, mode, ms, rdwr, bits))
+        r_eff = float(qenergy.memory_read_energy(False, shape, eff, ms, rdwr, bits))
+        r_flat = float(qenergy.memory_read_energy(False, (_prod(shape[1:]),), eff, ms, rdwr, bits, is_tensor=False))
+    except TypeError:
+      # the signature of these INTERNAL helpers is not part of the property: the pe()-level clause
+      # energy_entry_is_documented_function judges the same facts through the public route
+      run.count("component_helper_signature_changed")
+      continue
     run.case(("component", shape, bits, mode, ms, io, rdwr))
     run.count("component_%s%s" % (eff, "_io" if io else ""))
     key = {"stream": "component", "effective_mode": eff, "io_layer": io, "rd_wr_on_io": rdwr}
